@@ -6,6 +6,17 @@ use std::path::{Path, PathBuf};
 use std::sync::atomic::{AtomicU64, Ordering};
 
 static SEQ: AtomicU64 = AtomicU64::new(0);
+static LIVE: std::sync::Mutex<Vec<PathBuf>> = std::sync::Mutex::new(Vec::new());
+
+/// Remove every scratch directory still registered (called before
+/// `process::exit`, which skips destructors).
+pub fn cleanup_all() {
+    if let Ok(mut v) = LIVE.lock() {
+        for p in v.drain(..) {
+            let _ = std::fs::remove_dir_all(&p);
+        }
+    }
+}
 
 pub struct WorkDir(PathBuf);
 
@@ -24,6 +35,9 @@ impl WorkDir {
         ));
         let _ = std::fs::remove_dir_all(&p);
         std::fs::create_dir_all(&p).expect("create work dir");
+        if let Ok(mut v) = LIVE.lock() {
+            v.push(p.clone());
+        }
         WorkDir(p)
     }
     pub fn path(&self) -> &Path {
@@ -34,6 +48,9 @@ impl WorkDir {
 impl Drop for WorkDir {
     fn drop(&mut self) {
         let _ = std::fs::remove_dir_all(&self.0);
+        if let Ok(mut v) = LIVE.lock() {
+            v.retain(|p| p != &self.0);
+        }
     }
 }
 
